@@ -378,7 +378,7 @@ func lexFamily(raw json.RawMessage) Result {
 		// the same bytes as the content of a file: evaluating a file equals evaluating its content (C18), so the text of a
 		// template file reaches the output byte for byte as well
 		if res.Status == "ok" {
-			if fout, ferr, ok := evalAsFile(src); ok && ((ferr == nil) != (err == nil) || fout != out) {
+			if fout, ferr, ok := evalAsFile(src); ok && ((ferr == nil) != (err == nil) || fout != out || (err != nil && err.Error() != ferr.Error())) {
 				res.Status, res.Kind = "viol", "file-differs"
 				res.Msg = fmt.Sprintf("EvaluateString gives (%q, err=%v), EvaluateFile on a file with the same bytes gives (%q, err=%v)", out, err != nil, fout, ferr != nil)
 			}
